@@ -202,3 +202,101 @@ contract(
     not_decided=["the sfqcd branch of _read_flow_obs (nested block loops; blocks after `obspos` are not length-checked), read_rwms, "
                  "read_ms5_xsf, read_pbp record loops and the text / archive formats are not under contract yet"],
 )
+
+
+# ---------------------------------------------------------------------------------------------------
+# read_rwms, openQCD 1.4 / 1.6, one reweighting factor: record = 4 bytes config number + nfct x (two blocks of 8*nsrc bytes)
+# (the second block of each pair is unpacked, so a cut anywhere inside a record raises struct.error)
+
+def _rw_R(v):
+    return 4 + At(v.nfct, 0) * (16 * At(v.nsrc, 0))
+
+
+def _rw_inv(v):
+    k = Len(At(v.configlist, 0)) - Len(At(v.pre.configlist, 0))
+    return {"records-complete": And(FP(v.fp) == FP(v.pre.fp) + k * _rw_R(v), FP(v.fp) <= FL(v.fp), k >= 0),
+            "one-value-per-record": Len(At(v.tmp_array, 0)) - Len(At(v.pre.tmp_array, 0)) == k}
+
+
+def _rw_inner_inv(j, v):
+    # inside one record: j complete pairs of blocks have been consumed
+    return {"pairs-complete": And(FP(v.fp) == FP(v.pre.fp) + j * (16 * At(v.nsrc, 0)), FP(v.fp) <= FL(v.fp))}
+
+
+def _rw_post(a, r):
+    k = accepted(a, r)
+    R = 4 + At(a.nfct, 0) * (16 * At(a.nsrc, 0))
+    return {"accepted-records-complete": FP(a.fp) + k * R <= FL(a.fp),
+            "no-complete-record-dropped": FL(a.fp) - (FP(a.fp) + k * R) < 4}
+
+
+def _rw_native(args):
+    import os
+    import struct
+    import tempfile
+    from pyvc.native import repo_module
+    oq = repo_module("pyerrors.input.openQCD")
+    nfct, nsrc, L = args["nfct"][0], args["nsrc"][0], args["fp"]["L"]
+    head = struct.pack("i", 1) + struct.pack("i", nfct) + struct.pack("i", nsrc)
+    R = 4 + nfct * 16 * nsrc
+    data = head
+    nrec = (L - len(head)) // R + 2
+    for c in range(nrec):
+        data += struct.pack("i", c + 1)
+        for j in range(nfct):
+            data += struct.pack("d" * nsrc, *[0.5 + 0.01 * s for s in range(nsrc)])
+            data += struct.pack("d" * nsrc, *[0.1 * (c + 1) + 0.01 * s + j for s in range(nsrc)])
+    d = tempfile.mkdtemp(prefix="pyvc_rw_")
+    try:
+        with open(os.path.join(d, "ensr1.ms1.dat"), "wb") as fh:
+            fh.write(data[:L])
+        res = oq.read_rwms(d, "ens", version="1.6", files=["ensr1.ms1.dat"], names=["ens|r1"])
+        return int(res[0].N)
+    finally:
+        for f in os.listdir(d):
+            os.remove(os.path.join(d, f))
+        os.rmdir(d)
+
+
+def _rw_gen(rng, case):
+    nfct, nsrc = rng.choice([1, 2]), rng.choice([1, 2, 3])
+    R = 4 + nfct * 16 * nsrc
+    L = 12 + rng.randint(5, 8) * R + (rng.randint(0, R - 1) if rng.random() < 0.7 else rng.randint(0, 3))
+    return {"fp": {"L": L, "pos": 12}, "nrw": 1, "version": "1.6", "nfct": [nfct], "nsrc": [nsrc], "print_err": 0,
+            "configlist": [[]], "tmp_array": [[]]}
+
+
+class _IntList1(Spec):
+    """a list with one positive integer (factor / source count of the single reweighting factor)"""
+
+    def make(self, name, ctx, shape=None):
+        v = SInt(z3.Int(fresh(name)))
+        ctx.assume(v >= 1)
+        return CList([v], "list", "int")
+
+    def native(self, value, ev):
+        return [int(ev(value.items[0]))]
+
+
+def _rw_while(mod, fnode):
+    return nth_while(0)(mod, fnode)
+
+
+def _rw_ghost(v):
+    # remember where the current record started (ghost variable for the inner invariant)
+    return []
+
+
+contract(
+    REL + "::read_rwms", name=REL + "::read_rwms[record loop 1.6, one factor]", props=["C18"],
+    slice=_rw_while, loops={"while:0": _rw_inv, 11: _rw_inner_inv},
+    params=dict(fp=NativeFile(12), nrw=Const(1), version=Const("1.6"), nfct=_IntList1(), nsrc=_IntList1(), print_err=Const(0),
+                configlist=Custom(lambda n, c, s: CList([IntListSym().make(n, c, s)], "list"), native=lambda v, ev: [[]]),
+                tmp_array=Custom(lambda n, c, s: CList([IntListSym("opaque").make(n, c, s)], "list"), native=lambda v, ev: [[]])),
+    writes=("fp", "configlist", "tmp_array"),
+    may_raise=("struct.error", "Exception"),
+    ensures=_rw_post,
+    native_call=_rw_native, gen=_rw_gen, crosscheck=False, refute=False,
+    slice_note="the `while True:` record loop of read_rwms for version 1.4/1.6 with a single reweighting factor (nrw == 1); live-in "
+               "variables fp, nfct, nsrc, configlist, tmp_array",
+)
